@@ -85,3 +85,17 @@ PROPS["C10"] = {
         {"bin": "c10", "quick": {"cases": 0, "workers": 16, "budget": 600}, "thorough": {"cases": 0, "workers": 16, "budget": 1800}},
     ],
 }
+
+PROPS["C17"] = {
+    "level": "exploration",
+    "engine": "enumeration",
+    "technique": "exhaustive enumeration of the command x handle x datasize x data grid under ASan with exact-size heap blocks, plus a state-digest oracle for queries",
+    "exhaustive": True,
+    "rule": "complete enumeration: every SFC_* id of sndfile.h + 4 undefined ids x handle {NULL, read, write, rdwr} on {WAV PCM16, WAV float, WAVEX, RF64, AIFF, CAF, RAW} with and without stored metadata x datasize {0..natural size+8 (every value; for SF_CUES every size within -2..+5 of each whole-cue boundary), 4096, 16385, 65536} x data {NULL, heap block of exactly datasize bytes filled with zeros / 0xFF / random / plausible length fields / lying length fields}; "
+            "each group runs in a forked child that announces the cell before executing it; non-trivial = data != NULL and datasize != the natural struct size (cells are distinct by construction, counted); query commands are additionally checked with a digest of positions, SF_INFO, norm/clip settings, all strings, bext, cart, cues, instrument, channel map and the backing bytes",
+    "assumptions": BASE_ASSUME + ["'natural size' per command is the harness' table (sizeof of the documented struct); a zero-size request passes a pointer one past a heap block so that any access is an ASan report",
+                                  "state-changing commands are followed by a 4-frame write and sf_close inside the same cell so damage they cause is attributed to that cell"],
+    "stages": [
+        {"bin": "c17", "quick": {"cases": 0, "workers": 16, "budget": 600}, "thorough": {"cases": 0, "workers": 16, "budget": 1800}},
+    ],
+}
